@@ -1,10 +1,16 @@
 //verif:dest internal/mapr/zz_verif_c15.go
-//verif:replace os.OpenFile = c15OpenFile
-//verif:replace os.Stat = c15Stat
-//verif:replace os.Rename = c15Rename
-//verif:replace os.Remove = c15Remove
-//verif:replace (*os.File).WriteString = c15WriteString
-//verif:replace (*os.File).Close = c15Close
+//verif:replace@C15a os.OpenFile = c15OpenFile
+//verif:replace@C15a os.Stat = c15Stat
+//verif:replace@C15a os.Rename = c15Rename
+//verif:replace@C15a os.Remove = c15Remove
+//verif:replace@C15a (*os.File).WriteString = c15WriteString
+//verif:replace@C15a (*os.File).Close = c15Close
+//verif:replace@C15d os.OpenFile = c15OpenFile
+//verif:replace@C15d os.Stat = c15Stat
+//verif:replace@C15d os.Rename = c15Rename
+//verif:replace@C15d os.Remove = c15Remove
+//verif:replace@C15d (*os.File).WriteString = c15WriteString
+//verif:replace@C15d (*os.File).Close = c15Close
 
 package mapr
 
@@ -33,11 +39,33 @@ var c15Ops, c15CrashAt int
 
 type c15Crash struct{}
 
+// c15OpDelay: every file system operation takes this much (virtual) time, so that
+// operations of concurrent writers can interleave; c15Hook runs after every operation.
+var c15OpDelay time.Duration
+var c15Hook func()
+
 // c15Tick counts an operation; returns true if the process dies during it.
 func c15Tick() bool {
 	c15Ops++
+	if c15OpDelay > 0 {
+		verifrt.Sleep(c15OpDelay)
+	}
+	if c15Hook != nil {
+		defer c15Hook()
+	}
 	return c15Ops == c15CrashAt
 }
+
+// VerifC15Reset gives harnesses of other packages an empty file system without crash point.
+func VerifC15Reset(opDelay time.Duration, hook func()) {
+	c15FS = map[string]*c15File{}
+	c15Open = map[*os.File]*c15Handle{}
+	c15Ops, c15CrashAt = 0, 0
+	c15OpDelay, c15Hook = opDelay, hook
+}
+
+// VerifC15Content returns the content of a file of the harness file system.
+func VerifC15Content(name string) (string, bool) { return c15Content(name) }
 
 func c15OpenFile(name string, flag int, perm os.FileMode) (*os.File, error) {
 	if c15Tick() {
